@@ -76,6 +76,7 @@ def _analyse(job, root):
             res["runtime"] = P.run_node_project(rundir, run["main"])
     pre = install_preprocess_recorder()
     coll = install_taint_collision_recorder()
+    pedges = install_param_edge_recorder()
     s = job["settings"]
     st = lianrun.write_settings(os.path.join(root, "st"), entry=s["entry"], source=s["source"], sink=s["sink"], propagation=s["propagation"])
     ws = os.path.join(root, "ws")
@@ -91,7 +92,7 @@ def _analyse(job, root):
         res["died"] = f"{type(e).__name__}@{inner}"
         res["died_msg"] = str(e)[:300]
         return res
-    res.update(extract(lianrun.ws_dir(ws), "in"))
+    res.update(extract(lianrun.ws_dir(ws), "in", pedges))
     res["cpu_s"] = round(time.process_time(), 2)
     res["preprocess_events"] = pre["events"]
     res["taint_state_calls"] = coll["calls"]
@@ -179,7 +180,49 @@ def line_backmap(orig, pre):
     return back
 
 
-def extract(wsd, in_name):
+def install_param_edge_recorder():
+    """Recording wrapper on GlobalStmtStates.add_arg_to_param_edge (P3): which argument symbol -> callee parameter
+    SYMBOL_FLOW edges the state-flow graph received. That method matches STATE nodes of the whole graph by their
+    frame-local `index` and takes the first suitable parent of a set; the recorded edge set is only used to CLASSIFY a
+    taint-flow difference that has already been observed (do P and P' differ in these edges?)."""
+    rec = {"calls": 0, "edges": set()}
+    try:
+        import lian.core.global_stmt_states as gss
+        cls = gss.GlobalStmtStates
+        orig = cls.add_arg_to_param_edge
+    except Exception:
+        return rec
+
+    def wrapped(self, each_pair, status, parameter_name_symbol):
+        rec["calls"] += 1
+        sfg = self.sfg
+        real = sfg.add_edge
+        added = []
+
+        def spy(u, v, w=None):
+            added.append((u, v))
+            return real(u, v, w)
+        try:
+            sfg.add_edge = spy
+        except Exception:
+            return orig(self, each_pair, status, parameter_name_symbol)
+        try:
+            return orig(self, each_pair, status, parameter_name_symbol)
+        finally:
+            try:
+                del sfg.add_edge
+            except Exception:
+                pass
+            for u, v in added:
+                try:
+                    rec["edges"].add((int(u.def_stmt_id), str(u.name), int(v.def_stmt_id), str(v.name)))
+                except Exception:
+                    pass
+    cls.add_arg_to_param_edge = wrapped
+    return rec
+
+
+def extract(wsd, in_name, pedges=None):
     import pandas as pd
     out = {"edges": [], "bindings": [], "flows": []}
     gir = lianrun.read_bundles(wsd, "frontend", "gir")
@@ -303,6 +346,15 @@ def extract(wsd, in_name):
             fl.add((rel_of(x.get("source_file_path")), x.get("source_line"), rel_of(x.get("sink_file_path")), x.get("sink_line")))
     out["flows"] = [list(x) for x in sorted(fl, key=str)]
     out["n_stmts"] = len(info)
+    # argument -> parameter edges seen by the recording wrapper, in (file, line, name) terms
+    out["param_edge_calls"] = (pedges or {}).get("calls", 0)
+    pe = set()
+    for (a, an, b, bn) in (pedges or {}).get("edges", ()):
+        ia, ib = info.get(a), info.get(b)
+        if ia is None or ib is None or an.startswith("%") or bn.startswith("%"):
+            continue
+        pe.add((ia[0], ia[1], an, ib[0], ib[1], bn))
+    out["param_edges"] = [list(x) for x in sorted(pe, key=str)]
     return out
 
 
@@ -735,6 +787,24 @@ def label_of(steps, suffix=""):
     return "+".join(ks) + suffix
 
 
+def _param_edges_differ(res_a, res_b, mp):
+    if not res_a.get("param_edge_calls") or not res_b.get("param_edge_calls"):
+        return False
+    img = mp.image()
+    a = set()
+    for (r1, l1, n1, r2, l2, n2) in res_a.get("param_edges", []):
+        x = mp.name(r1, l1, n1) if l1 is not None and not r1.startswith("@") else (r1, l1, n1)
+        y = mp.name(r2, l2, n2) if l2 is not None and not r2.startswith("@") else (r2, l2, n2)
+        if x is None or y is None:
+            continue
+        a.add((tuple(x), tuple(y)))
+    b = set()
+    for (r1, l1, n1, r2, l2, n2) in res_b.get("param_edges", []):
+        if (l1 is None or r1.startswith("@") or (r1, l1) in img) and (l2 is None or r2.startswith("@") or (r2, l2) in img):
+            b.add(((r1, l1, n1), (r2, l2, n2)))
+    return a != b
+
+
 def judge(chk, prog, steps, edited_files, res_a, res_b, reducible, case_extra=None):
     """Compares one pair. Returns list of (signature, description, case) — empty when invariant."""
     mp = edits.Mapping(steps)
@@ -766,6 +836,11 @@ def judge(chk, prog, steps, edited_files, res_a, res_b, reducible, case_extra=No
             # known mechanism: during propagation a STATE's id was used as a key of the SYMBOL tag table in one of the
             # two runs, so which symbols are tainted depends on numeric coincidences between state ids and statement ids
             what = what + ":state-id-written-into-symbol-tags"
+        if table == "taint-flow-lines" and what.startswith("flow-") and ":" not in what and _param_edges_differ(res_a, res_b, mp):
+            # known mechanism: P3's add_arg_to_param_edge gave the two state-flow graphs different argument->parameter
+            # edges (it matches STATE nodes of the whole graph by their frame-local index and takes the first parent
+            # of a set), so the taint path finder walks different graphs
+            what = what + ":arg-to-param-edges-differ"
         sig = f"{lab}:{table}:{what}"
         if sig in seen:
             continue
